@@ -121,7 +121,7 @@ def roster(consts, ids, extra=None):
     return out
 
 
-def build_wows(v, rng, join=True, battle_end=True, map_name='spaces/16_OC_bees_to_honey', n_players=3):
+def build_wows(v, rng, join=True, battle_end=True, map_name='spaces/16_OC_bees_to_honey', n_players=3, roster_extra=None):
     """-> (Battle, version string for the open block).  v: a directory name under clients/wows/versions"""
     ver = v.split('_'); new = tuple(map(int, ver[:3])) >= (12, 6, 0)
     d = os.path.join(common.REPO, 'replay_unpack', 'clients', 'wows', 'versions', v)
@@ -162,7 +162,7 @@ def build_wows(v, rng, join=True, battle_end=True, map_name='spaces/16_OC_bees_t
     pk = lambda obj: (lambda t: ('s', pickle.dumps(obj, protocol=2)))
     am = {x['name']: x for x in b.md.ent['Avatar']['methods']}
     vm = {x['name']: x for x in b.md.ent['Vehicle']['methods']}
-    r = roster(consts, range(n_players))
+    r = roster(consts, range(n_players), extra=roster_extra(consts) if roster_extra else None)
     def merge(rs):
         for rec in rs:
             dct = {consts.id_property_map[k]: val for k, val in rec}
